@@ -624,7 +624,14 @@ void cmi_process_cancel_awaiteds(struct cmb_process *pp)
         else if (pa->type == CMI_PROCESS_AWAITABLE_RESOURCE) {
             cmb_assert_debug(pa->ptr != NULL);
             struct cmb_resourceguard *rgp = pa->ptr;
-            (void)cmb_resourceguard_remove(rgp, pp);
+            if (!cmb_resourceguard_remove(rgp, pp) && (rgp->forward == NULL)) {
+                /*
+                 * Not in the queue any more: it had been selected already,
+                 * and its wakeup call gets canceled below. Offer what it was
+                 * selected for to the next in line.
+                 */
+                (void)cmb_resourceguard_signal(rgp);
+            }
         }
         else if (pa->type == CMI_PROCESS_AWAITABLE_PROCESS) {
             /* Waits for a process to end, remove ourselves from the waiter list */
